@@ -170,8 +170,8 @@ def replay(ctx, which, case):
 
 
 def run_repo_tests(ctx, which):
-    ctx.count('repo_tests_shard_todo')
-    run_generated(ctx, which, ctx.pick(400, 12000))
+    from vlib.repotests import run_under_monitors
+    run_under_monitors(ctx, ['resolver_mon'])
 
 
 def run_special(ctx, which):
